@@ -241,8 +241,16 @@ class EventMixin (object):
     try:
       return self.raiseEvent(event, *args, **kw)
     except ReventError:
-      # That's bad...
-      raise
+      # That's bad... if it is our own complaint (we don't declare this
+      # event, so no handler has run).  A ReventError that came out of a
+      # handler is handled like any other handler exception.
+      eventType = event.__class__ if isinstance(event, Event) else event
+      if (self._eventMixin_events is not True
+          and eventType not in self._eventMixin_events):
+        raise
+      if handleEventException is not None:
+        import sys
+        handleEventException(self, event, args, kw, sys.exc_info())
     except:
       if handleEventException is not None:
         import sys
